@@ -20,7 +20,7 @@ CLASSIFIED = {
     ("TokenizerState", "lnum"): "position", ("TokenizerState", "line"): "line", ("TokenizerState", "last_line"): "line",
     ("TokenizerState", "pos"): "line", ("TokenizerState", "max"): "line", ("TokenizerState", "parenlev"): "bracket",
     ("TokenizerState", "continued"): "line", ("TokenizerState", "indents"): "block", ("TokenizerState", "end_progs"): "mode",
-    ("EndProg", "text"): "mode", ("EndProg", "contline"): "mode", ("EndProg", "start"): "mode",
+    ("EndProg", "text"): "mode", ("EndProg", "contline"): "mode", ("EndProg", "upto"): "mode", ("EndProg", "start"): "mode",
 }
 OWNER_OF_VAR = {"self": None, "state": "TokenizerState", "endprog": "EndProg", "prog": "EndProg"}
 
